@@ -356,7 +356,16 @@ func (r *resolver) Resolve(ctx context.Context, vk resolve.VersionKey) (*resolve
 				if r.protected(parent.parent, node.pkg, alias) {
 					break
 				}
-				parent.protected[node.pkg] = true
+				// The slot being hoisted past is the name the dependency
+				// is installed under: the alias if there is one.
+				if alias != "" {
+					if parent.aliasProtected == nil {
+						parent.aliasProtected = make(map[string]bool)
+					}
+					parent.aliasProtected[alias] = true
+				} else {
+					parent.protected[node.pkg] = true
+				}
 				parent = parent.parent
 			}
 			// If the parent and the installed version are from the same
